@@ -14,7 +14,9 @@ RULE = (
     "every MiniPy program up to the size bound (statement menu = every binding / pass-through form the "
     "property names) x inputs x in {0,1,2} x generator drivers x instrumentation route (tooled, "
     "tooled.inplace, probing on each single variable, on all variables, on all-but-one, on every subset "
-    "when <=3 names, generic $x, meta variables, an external helper); oracle = the untouched function in a "
+    "when <=3 names, generic $x, meta variables, an external helper) x, for generators, where the generator "
+    "is driven relative to the activation (inside it; created inside and first advanced after it ended; "
+    "advanced once inside and the rest after; advanced once and the rest in another contextvars.Context); oracle = the untouched function in a "
     "pristine twin world: result/exception, yield transcript, ordered effect log, final state of mutable "
     "arguments, module-globals diff. non-trivial = distinct (program, input, route) cases in which at "
     "least one interaction fired (probe event delivered) or the tooled code ran"
@@ -34,7 +36,8 @@ CHUNK = 10
 def program_sets(tier):
     return [("gen", dict()),
             # rich signatures (positional-only, defaults, *rest, keyword-only, **kw, docstring) on small programs
-            ("sig", dict(size=1 if tier == "quick" else 2, sigs=("rich", "kwonly", "doc", "closure-default"), key=("c01sig", tier)))]
+            ("sig", dict(size=1 if tier == "quick" else 2, sigs=("rich", "kwonly", "doc", "closure-default"), key=("c01sig", tier))),
+            C.odd_set(tier)]
 
 
 def units(tier):
@@ -86,7 +89,24 @@ def selectors_for(cfg, info):
     return []
 
 
-def run_config(prog, info, cfg, x, driver, part):
+# where a generator is driven relative to the activation that instrumented it (generator programs only):
+#   late-0: created while the probes are active, first advanced after they ended
+#   late-1: advanced once while they are active, the rest after they ended
+#   ctx-1:  advanced once, the rest inside a copy of the context (another thread / Context.run)
+PLACEMENTS = [("late", 0), ("late", 1), ("ctx", 1)]
+
+
+def placements_for(cfg, info, driver):
+    if not info["is_gen"] or driver is None:
+        return [None]
+    if cfg[0] in ("tooled", "inplace"):
+        return [None, ("ctx", 1)] if cfg[0] == "tooled" else [None]
+    if cfg[0] == "generic":
+        return [None] + [p for p in PLACEMENTS if p[1] < len(driver)]
+    return [None]
+
+
+def run_config(prog, info, cfg, x, driver, part, placement=None):
     """Execute one (program, route, input, driver) in a fresh-or-clean world; returns observation."""
     import ptera
     from ptera import probing, tooled
@@ -105,7 +125,7 @@ def run_config(prog, info, cfg, x, driver, part):
                 return ("activation-failed", type(e).__name__, str(e)[:200]), False
             w.instrumented_fn = fn
             part["counters"]["transforms"] += 1
-        obs = P.run(w, fn, x, driver, prog.flags)
+        obs = P.run(w, fn, x, driver, prog.flags, split=(placement[1], None, True) if placement else None)
         return obs, True
     else:
         sels = selectors_for(cfg, info)
@@ -125,14 +145,21 @@ def run_config(prog, info, cfg, x, driver, part):
             C.discard_world(prog, "inst")
             world.reset_context()
             return ("activation-failed", type(e).__name__, str(e)[:200]), False
-        try:
-            obs = P.run(w, w.f, x, driver, prog.flags)
-        finally:
-            for p in reversed(probes):
+        def deactivate():
+            while probes:
+                p = probes.pop()
                 try:
                     p.__exit__(None, None, None)
                 except BaseException:
                     pass
+
+        split = None
+        if placement:
+            split = (placement[1], deactivate if placement[0] == "late" else None, placement[0] == "ctx")
+        try:
+            obs = P.run(w, w.f, x, driver, prog.flags, split=split)
+        finally:
+            deactivate()
         fired = bool(events)
     if world.clean_state_problems(w.f, w.orig_code):
         part["counters"]["world-rebuilt-unclean"] += 1
@@ -154,26 +181,32 @@ def check_program(prog, tier, part):
             ref = P.run(ref_w, ref_w.f, x, driver, prog.flags)
             part["outcomes"][C.outcome_class(ref)] += 1
             for cfg in configs_for(info, tier):
+              for placement in placements_for(cfg, info, driver):
                 part["cases"] += 1
                 part["evaluations"] += 1
-                obs, fired = run_config(prog, info, cfg, x, driver, part)
+                obs, fired = run_config(prog, info, cfg, x, driver, part, placement)
                 part["steps"] += 1
                 if fired:
                     part["nontrivial"] += 1
+                if placement:
+                    part["counters"]["placement:%s-%d" % placement] += 1
                 if obs != ref:
                     if obs[0] == "activation-failed":
                         lab, det = "activation", f"instrumentation failed: {obs[1]}: {obs[2]}"
                     else:
                         lab, det = P.first_difference(ref, obs)
-                    case = {"src": prog.src, "forms": list(prog.forms), "x": x, "driver": driver, "config": list(cfg)}
+                    case = {"src": prog.src, "forms": list(prog.forms), "x": x, "driver": driver, "config": list(cfg),
+                            "placement": list(placement) if placement else None}
+                    if placement:
+                        det = f"[generator driven {placement[0]}-{placement[1]}] {det}"
                     v = violation(PROP, "not-transparent:" + str(lab), case, det, tags=["differs:" + str(lab)])
-                    C.attribute(PROP, v, prog, part, lambda p2: _differs(p2, x, driver, cfg, tier))
+                    C.attribute(PROP, v, prog, part, lambda p2: _differs(p2, x, driver, cfg, tier, placement))
     if len(part["samples"]) < 2:
         part["samples"].append({"program": prog.src, "forms": list(prog.forms), "configs": [list(c) for c in configs_for(info, tier)][:6]})
     C.drop_worlds(prog)
 
 
-def _differs(prog, x, driver, cfg, tier):
+def _differs(prog, x, driver, cfg, tier, placement=None):
     """Counterfactual: does this (neutralised) program still differ under the same input/route?"""
     info = C.analyse(prog)
     if info is None:
@@ -188,7 +221,9 @@ def _differs(prog, x, driver, cfg, tier):
     ref_w = C.get_world(prog, info, "ref")
     C.fresh(ref_w, info)
     ref = P.run(ref_w, ref_w.f, x, driver, prog.flags)
-    obs, _ = run_config(prog, info, cfg, x, driver, part)
+    if placement and not info["is_gen"]:
+        placement = None
+    obs, _ = run_config(prog, info, cfg, x, driver, part, placement)
     C.drop_worlds(prog)
     return obs != ref
 
@@ -213,7 +248,8 @@ def replay(case):
     cfg = tuple(case["config"])
     if cfg[0] == "probe":
         cfg = ("probe", tuple(cfg[1]))
-    obs, _ = run_config(prog, info, cfg, case["x"], drv, part)
+    pl = tuple(case["placement"]) if case.get("placement") else None
+    obs, _ = run_config(prog, info, cfg, case["x"], drv, part, pl)
     C.drop_worlds(prog)
     if obs != ref:
         if obs[0] == "activation-failed":
